@@ -40,6 +40,7 @@
 #include <rime/segmentation.h>
 #include <rime/service.h>
 #include <rime/algo/dynamics.h>
+#include <rime/algo/syllabifier.h>
 #include <rime/dict/corrector.h>
 #include <rime/dict/db.h>
 #include <rime/dict/dictionary.h>
@@ -123,7 +124,15 @@ class SpyScript : public rime::ScriptTranslator, public SpyBase {
     for (size_t i = 0; i < g_spies.size(); ++i) if (g_spies[i] == this) { g_spies.erase(g_spies.begin() + i); break; }
   }
   an<rime::Translation> Query(const std::string& input, const rime::Segment& seg) override {
-    if (dict_ && dict_->loaded() && seg.HasAnyTagIn(tags_) && user_dict_) emit("E query " + ns);
+    if (dict_ && dict_->loaded() && seg.HasAnyTagIn(tags_) && user_dict_) {
+      // does UserDictionary::Lookup get as far as FetchTickCount?  It returns early when the syllabifier
+      // interprets nothing of the input (or the user dictionary is disabled for this input).
+      rime::Syllabifier syl(delimiters_, enable_completion_, strict_spelling_);
+      rime::SyllableGraph graph;
+      syl.BuildSyllableGraph(input, *dict_->prism(), &graph);
+      bool lookup = user_dict_->loaded() && !IsUserDictDisabledFor(input) && graph.interpreted_length > 0;
+      emit("E query " + ns + (lookup ? " 1" : " 0"));
+    }
     return rime::ScriptTranslator::Query(input, seg);
   }
   bool Memorize(const rime::CommitEntry& ce) override {
@@ -143,7 +152,7 @@ class SpyTable : public rime::TableTranslator, public SpyBase {
     for (size_t i = 0; i < g_spies.size(); ++i) if (g_spies[i] == this) { g_spies.erase(g_spies.begin() + i); break; }
   }
   an<rime::Translation> Query(const std::string& input, const rime::Segment& seg) override {
-    if (seg.HasAnyTagIn(tags_) && user_dict_) emit("E query " + ns);
+    if (seg.HasAnyTagIn(tags_) && user_dict_) emit("E query " + ns + " 1");
     return rime::TableTranslator::Query(input, seg);
   }
   bool Memorize(const rime::CommitEntry& ce) override {
